@@ -6,7 +6,7 @@
     [get ids slot] is the identifier of a position ("" = none); [positions st] is the independent traversal of
     all id-carrying positions outside MathML, [all_slots st] adds the ids inside MathML. *)
 From Coq Require Import String List NArith Arith Bool.
-From LC Require Import Common IdsDefs IdsProofs IdsProofs2 IdsProofs3 IdsProofs4 IdsHash IdsMulti IdsWitness.
+From LC Require Import Common IdsDefs IdsProofs IdsProofs2 IdsProofs3 IdsProofs4 IdsHash IdsMulti IdsWitness IdsRound5Proofs.
 Import ListNotations.
 Open Scope string_scope.
 Open Scope list_scope.
@@ -442,3 +442,30 @@ Example C13_repaired_histories :
   item_count_of (build_cache cfg_fixed st_imp ids7) "imp" = 1.
 Proof. split; [exact IdsWitness.stale_fixed | split; [exact IdsWitness.hash_blind_fixed | exact (proj1 IdsWitness.import_shared_fixed)]]. Qed.
 Print Assumptions C13_repaired_histories.
+
+(* ---------------------------------------------------------------- proof depth round 5: idempotence *)
+
+(* assignAllIds(); assignAllIds(): for every annotator state, id vector and cfg the second call changes no
+   identifier and returns false (nothing assigned) *)
+Theorem C13_assign_all_idempotent : forall c st s,
+  a_has_model (s_ann s) = true -> slots_in_range st (length (s_ids s)) = true ->
+  let s1 := fst (assign_all c st s) in
+  s_ids (fst (assign_all c st s1)) = s_ids s1 /\ snd (assign_all c st s1) = false.
+Proof. exact IdsRound5Proofs.assign_all_idempotent. Qed.
+Print Assumptions C13_assign_all_idempotent.
+
+(* assignIds(type); assignIds(type): the second call changes no identifier *)
+Theorem C13_assign_type_idempotent : forall c st k s,
+  a_has_model (s_ann s) = true -> slots_in_range st (length (s_ids s)) = true ->
+  let s1 := fst (assign_type c st k s) in
+  s_ids (fst (assign_type c st k s1)) = s_ids s1.
+Proof. exact IdsRound5Proofs.assign_type_idempotent. Qed.
+Print Assumptions C13_assign_type_idempotent.
+
+(* once every position of a traversal carries an identifier, any number of repetitions of the traversal leaves
+   the WHOLE state (identifiers, id list, hash, counter) as it is *)
+Theorem C13_assign_visits_repeat_noop : forall n vs s,
+  (forall v, In v vs -> get (s_ids s) (v_slot v) <> "") ->
+  Nat.iter n (fun t => assign_visits t vs) s = s.
+Proof. exact IdsRound5Proofs.assign_visits_repeat_noop. Qed.
+Print Assumptions C13_assign_visits_repeat_noop.
